@@ -33,11 +33,11 @@ package container
 //@ spec func RoleEarlyRef() int = 2
 
 // Registry invariant (all quantifiers over names n):
-//   J3  a name in creation is not published;          JV  cached values are non-nil;
+//   J3  a name in creation is not published;          JV  cached values are built Metas (MetaOK);
 //   JF  every pending factory is a well-formed early-reference factory for its own name on this registry;
 //   J   every name in creation can be answered (early reference or pending factory) except the hole;
 //   J2  early references and pending factories exist only for names in creation.
-//@ spec func RegCore(r SingletonComponentRegistry) bool = r != nil && r.RepInv && forall(n, string, implies(r.IC[n], !r.L1Dom[n]), r.IC[n]) && forall(n, string, implies(r.L1Dom[n], r.L1[n] != nil), r.L1Dom[n]) && forall(n, string, implies(r.L2Dom[n], r.L2[n] != nil), r.L2Dom[n]) && forall(n, string, implies(r.L3Dom[n], r.L3[n] != nil && r.L3[n].Role == RoleEarlyRef() && r.L3[n].ForName == n && r.L3[n].Reg == r), r.L3Dom[n]) && forall(n, string, implies(r.IC[n], r.L2Dom[n] || r.L3Dom[n] || (r.HasHole && n == r.Hole)), r.IC[n])
+//@ spec func RegCore(r SingletonComponentRegistry) bool = r != nil && r.RepInv && forall(n, string, implies(r.IC[n], !r.L1Dom[n]), r.IC[n]) && forall(n, string, implies(r.L1Dom[n], MetaOK(r.L1[n])), r.L1Dom[n]) && forall(n, string, implies(r.L2Dom[n], MetaOK(r.L2[n])), r.L2Dom[n]) && forall(n, string, implies(r.L3Dom[n], r.L3[n] != nil && allocated(r.L3[n]) && r.L3[n].Role == RoleEarlyRef() && r.L3[n].ForName == n && r.L3[n].Reg == r), r.L3Dom[n]) && forall(n, string, implies(r.IC[n], r.L2Dom[n] || r.L3Dom[n] || (r.HasHole && n == r.Hole)), r.IC[n]) && implies(r.HasHole, r.IC[r.Hole] && !r.L2Dom[r.Hole] && !r.L3Dom[r.Hole])
 //@ spec func RegInv(r SingletonComponentRegistry) bool = RegCore(r) && forall(n, string, implies(r.L2Dom[n] || r.L3Dom[n], r.IC[n]), r.L2Dom[n], r.L3Dom[n])
 // RegInvBut(r, x): the invariant while the owner of x has unmarked x but not yet published it (J2 is suspended for x)
 //@ spec func RegInvBut(r SingletonComponentRegistry, x string) bool = RegCore(r) && forall(n, string, implies(n != x && (r.L2Dom[n] || r.L3Dom[n]), r.IC[n]), r.L2Dom[n], r.L3Dom[n])
@@ -49,6 +49,11 @@ package container
 // it or, when creation fails, by discarding every trace of the attempt.
 //@ spec func RegRely(r SingletonComponentRegistry) bool = forall(n, string, implies(old(r.L1Dom[n]), r.L1Dom[n] && r.L1[n] == old(r.L1[n])), r.L1Dom[n]) && forall(n, string, implies(old(r.IC[n]), r.IC[n] && !r.L1Dom[n] && implies(old(r.L2Dom[n]), r.L2Dom[n] && r.L2[n] == old(r.L2[n])) && implies(old(r.L3Dom[n]), r.L2Dom[n] || r.L3Dom[n])), r.IC[n])
 
+// StackKept(r, x): the lifecycle state of every name that was in creation (other than x) is untouched, and reflect
+// memory only grows: what a (nested) creation guarantees to the creations above it on the stack.
+//@ spec func StackKept(r SingletonComponentRegistry, x string) bool = RTop >= old(RTop) && forall(n, string, implies(old(r.IC[n]) && n != x, St[n] == old(St[n]) && ShortCircuit[n] == old(ShortCircuit[n]) && Wrapped[n] == old(Wrapped[n]) && r.Creates[n] == old(r.Creates[n])), St[n])
+//@ spec func StackKeptAll(r SingletonComponentRegistry) bool = RTop >= old(RTop) && forall(n, string, implies(old(r.IC[n]), St[n] == old(St[n]) && ShortCircuit[n] == old(ShortCircuit[n]) && Wrapped[n] == old(Wrapped[n]) && r.Creates[n] == old(r.Creates[n])), St[n])
+
 //@ spec func CachesUnchanged(r SingletonComponentRegistry) bool = r.L1Dom == old(r.L1Dom) && r.L1 == old(r.L1) && r.L2Dom == old(r.L2Dom) && r.L2 == old(r.L2) && r.L3Dom == old(r.L3Dom) && r.L3 == old(r.L3) && r.IC == old(r.IC)
 
 // ---- creation callbacks -------------------------------------------------------------------------------
@@ -58,20 +63,22 @@ package container
 //@ requires [cb-inv] RegInv(self.Reg)
 //@ requires [factory-sees-mark] implies(self.Role == RoleCreator(), self.Reg.IC[self.ForName] && self.Reg.HasHole && self.Reg.Hole == self.ForName)
 //@ requires [early-ref-no-hole] implies(self.Role == RoleEarlyRef(), !self.Reg.HasHole)
-//@ assigns self.Reg.L1Dom, self.Reg.L1, self.Reg.L2Dom, self.Reg.L2, self.Reg.L3Dom, self.Reg.L3, self.Reg.IC, self.Reg.EarlyRuns, self.Reg.Creates, self.Reg.HasHole, self.Reg.Hole
+//@ assigns RegFrame(self.Reg), CreationFrame()
 //@ ensures [cb-inv-kept] RegInv(self.Reg)
 //@ ensures [cb-rely] RegRely(self.Reg)
-//@ ensures [cb-result] implies(result1 == nil, result0 != nil)
+//@ ensures [cb-result] implies(result1 == nil, MetaOK(result0))
 //@ ensures [cb-earlyref-frame] implies(self.Role == RoleEarlyRef(), CachesUnchanged(self.Reg) && self.Reg.Creates == old(self.Reg.Creates) && self.Reg.EarlyRuns == store(old(self.Reg.EarlyRuns), self.ForName, old(self.Reg.EarlyRuns[self.ForName]) + 1))
 //@ ensures [cb-creator-counts] implies(self.Role == RoleCreator(), self.Reg.Creates[self.ForName] == old(self.Reg.Creates[self.ForName]) + 1)
 //@ ensures [cb-creator-marks] implies(self.Role == RoleCreator(), self.Reg.IC == old(self.Reg.IC))
+//@ ensures [cb-stack-kept] StackKept(self.Reg, self.ForName) && implies(self.Role == RoleEarlyRef(), StackKeptAll(self.Reg))
+//@ ensures [cb-failure-surfaces] implies(result1 == nil, Failed == old(Failed))
 //@ ensures [cb-hole] implies(self.Reg.HasHole, self.Role == RoleCreator() && self.Reg.Hole == self.ForName) && implies(self.Role == RoleEarlyRef(), self.Reg.HasHole == old(self.Reg.HasHole) && self.Reg.Hole == old(self.Reg.Hole))
 
 //@ method (SingletonComponentRegistry).GetSingleton
 //@ property C04
 //@ requires [inv] RegInv(self)
 //@ requires [no-hole] !self.HasHole || !allowEarlyReference
-//@ assigns self.L1Dom, self.L1, self.L2Dom, self.L2, self.L3Dom, self.L3, self.IC, self.EarlyRuns, self.Creates, self.HasHole, self.Hole
+//@ assigns RegFrame(self), CreationFrame()
 //@ ensures [inv-kept] RegInv(self)
 //@ ensures [rely] RegRely(self)
 //@ ensures [published-wins] implies(old(self.L1Dom[name]), result0 == old(self.L1[name]) && result1 == nil)
@@ -82,6 +89,8 @@ package container
 //@ ensures [miss-means-nil] implies(!old(self.L1Dom[name]) && !old(self.L2Dom[name]) && !old(self.L3Dom[name]), result0 == nil && result1 == nil)
 //@ ensures [never-creates] self.Creates == old(self.Creates) && self.L1Dom == old(self.L1Dom) && self.L1 == old(self.L1) && self.IC == old(self.IC) && self.L3 == old(self.L3) && self.HasHole == old(self.HasHole) && self.Hole == old(self.Hole)
 //@ ensures [failed-early-ref] implies(result1 != nil, result0 == nil && CachesUnchanged(self))
+//@ ensures [stack-kept] StackKeptAll(self)
+//@ ensures [failure-surfaces] implies(result1 == nil, Failed == old(Failed))
 
 //@ method (SingletonComponentRegistry).GetSingletonOrCreateByFactory
 //@ property C04
@@ -89,13 +98,15 @@ package container
 //@ requires [not-creating] !self.IC[name]
 //@ requires [no-hole] !self.HasHole
 //@ requires [creator] factory != nil && factory.Role == RoleCreator() && factory.ForName == name && factory.Reg == self
-//@ assigns self.L1Dom, self.L1, self.L2Dom, self.L2, self.L3Dom, self.L3, self.IC, self.EarlyRuns, self.Creates, self.HasHole, self.Hole
+//@ assigns RegFrame(self), CreationFrame()
 //@ ensures [inv-kept] RegInv(self)
 //@ ensures [rely] RegRely(self)
 //@ ensures [already-published] implies(old(self.L1Dom[name]), result0 == old(self.L1[name]) && result1 == nil && CachesUnchanged(self) && self.Creates == old(self.Creates) && self.EarlyRuns == old(self.EarlyRuns))
 //@ ensures [publishes] implies(result1 == nil && !old(self.L1Dom[name]), result0 != nil && self.L1Dom[name] && self.L1[name] == result0 && !self.L2Dom[name] && !self.L3Dom[name])
 //@ ensures [ic-restored] self.IC == old(self.IC)
 //@ ensures [no-hole-left] !self.HasHole
+//@ ensures [stack-kept] StackKeptAll(self)
+//@ ensures [failure-surfaces] implies(result1 == nil, Failed == old(Failed))
 //@ ensures [publishes-once] implies(!old(self.L1Dom[name]), self.Creates[name] == old(self.Creates[name]) + 1)
 //@ ensures [failed-create-leaves-nothing] implies(result1 != nil && !old(self.L1Dom[name]), !self.IC[name] && !self.L1Dom[name] && !self.L2Dom[name] && !self.L3Dom[name])
 //@ ensures [error-means-nil] implies(result1 != nil, result0 == nil)
@@ -105,7 +116,7 @@ package container
 //@ requires [inv] RegInvBut(self, name)
 //@ requires [publish-after-unmark] !self.IC[name]
 //@ requires [publish-once] !self.L1Dom[name]
-//@ requires [publishes-a-component] meta != nil
+//@ requires [publishes-a-component] MetaOK(meta)
 //@ assigns self.L1Dom, self.L1, self.L2Dom, self.L3Dom
 //@ ensures [inv-kept] RegInv(self)
 //@ ensures [rely] RegRely(self)
@@ -144,14 +155,14 @@ package container
 //@ method (Factory).PrepareComponents
 //@ property C13 C09
 //@ assigns everything
-//@ ensures [failure-recorded] Failed == (old(Failed) || result != nil)
+//@ ensures [failure-surfaces] implies(result == nil, Failed == old(Failed))
 //@ ensures [no-runner] RanLen == old(RanLen) && RanAt == old(RanAt) && RanSrc == old(RanSrc)
 //@ ensures [not-refreshed] Refreshed == old(Refreshed)
 
 //@ method (Factory).Refresh
 //@ property C13 C09
 //@ assigns everything
-//@ ensures [failure-recorded] Failed == (old(Failed) || result != nil)
+//@ ensures [failure-surfaces] implies(result == nil, Failed == old(Failed))
 //@ ensures [no-runner] RanLen == old(RanLen) && RanAt == old(RanAt) && RanSrc == old(RanSrc)
 //@ ensures [refreshed-iff-ok] Refreshed == (old(Refreshed) || result == nil)
 
@@ -169,6 +180,10 @@ package container
 //@ ghost var ApsCalls map[string]int
 //@ ghost var InitCalls map[string]int
 //@ ghost var CurName string
+//   ShortCircuit[name]: a BeforeInstantiation processor supplied the component; it skips population and init methods
+//@ ghost var ShortCircuit map[string]bool
+//   Wrapped[name]: initialization replaced the component by another object (a proxy Meta is published instead)
+//@ ghost var Wrapped map[string]bool
 
 // What the container owes a post-processor (requires) and what the call does to the trace (ensures).
 // A-CALLBACK: post-processors return a non-nil component when they succeed and do not write container-internal state.
@@ -182,8 +197,54 @@ package container
 
 //@ method (ComponentPostProcessor).PostProcessAfterInitialization
 //@ property C05 C09
-//@ requires [init-methods-before-after-processors] St[componentName] == 5
+//@ requires [init-methods-before-after-processors] St[componentName] == 5 || ShortCircuit[componentName]
 //@ assigns AfterLen, AfterAt, Failed
 //@ ensures [after-traced] AfterLen == store(old(AfterLen), componentName, old(AfterLen[componentName]) + 1) && AfterAt == store(old(AfterAt), componentName, store(old(AfterAt[componentName]), old(AfterLen[componentName]), self))
 //@ ensures [returns-component] implies(result1 == nil, result0 != nil)
+//@ ensures [failure-recorded] Failed == (old(Failed) || result1 != nil)
+
+// ---- definition registry (C06, C07): abstract view name -> definition ---------------------------------------------
+//@ ghost field (DefinitionRegistry) DefRep bool
+//@ ghost field (DefinitionRegistry) DefDom map[string]bool
+//@ ghost field (DefinitionRegistry) Def map[string]*component_definition.Meta
+
+// DefInv: every definition is a built Meta registered under its own name (D).
+//@ spec func DefInv(d DefinitionRegistry) bool = d != nil && d.DefRep && forall(n, string, implies(d.DefDom[n], n != "" && MetaOK(d.Def[n]) && d.Def[n].Name() == n), d.DefDom[n])
+
+//@ method (DefinitionRegistry).GetMetaByName
+//@ property C07 C01
+//@ requires [inv] DefInv(self)
+//@ assigns nothing
+//@ ensures [by-name] result == ite(self.DefDom[name], self.Def[name], nil)
+
+// What a creation (creating callback, early-reference callback, and every registry operation that may run one) is
+// allowed to touch besides the registry's own caches: injection-point candidate lists and tag values, dependents,
+// memory behind settable fields, lifecycle / narrowing ghost state. A-CALLBACK: user callbacks stay inside this frame.
+//@ frame CreationFrame() = ShortCircuit, Wrapped, anyfield(component_definition.Property, Injects), anyfield(component_definition.Property, TagVal), anyfield(component_definition.Meta, Dependent), anyfield(sync2.Map[string, struct{}], Dom), anyfield(sync2.Map[string, struct{}], Val), RMem, RTop, FilterSrc, FilterPos, St, BeforeLen, BeforeAt, AfterLen, AfterAt, ApsCalls, InitCalls, CurName, Failed
+//@ frame RegFrame(r) = r.L1Dom, r.L1, r.L2Dom, r.L2, r.L3Dom, r.L3, r.IC, r.EarlyRuns, r.Creates, r.HasHole, r.Hole
+
+// ---- instantiation-aware processors (C05, C09, C18): all three run before the component's initialization ---------
+//@ method (InstantiationAwareComponentPostProcessor).PostProcessBeforeInstantiation
+//@ property C05 C09
+//@ requires [before-population] St[componentName] == 0
+//@ assigns Failed
+//@ ensures [failure-recorded] Failed == (old(Failed) || result1 != nil)
+
+//@ method (InstantiationAwareComponentPostProcessor).PostProcessAfterInstantiation
+//@ property C05 C09
+//@ requires [before-population] St[componentName] == 0
+//@ assigns Failed
+//@ ensures [failure-recorded] Failed == (old(Failed) || result1 != nil)
+
+//@ method (InstantiationAwareComponentPostProcessor).PostProcessProperties
+//@ property C05 C09 C18
+//@ requires [properties-before-initialization] St[componentName] == 0
+//@ assigns CreationFrame()
+//@ ensures [lifecycle-untouched] St == old(St) && BeforeLen == old(BeforeLen) && AfterLen == old(AfterLen) && ApsCalls == old(ApsCalls) && InitCalls == old(InitCalls) && ShortCircuit == old(ShortCircuit) && Wrapped == old(Wrapped) && RTop >= old(RTop)
+//@ ensures [failure-recorded] Failed == (old(Failed) || result1 != nil)
+
+//@ method (SmartInstantiationAwareBeanPostProcessor).GetEarlyBeanReference
+//@ property C03 C09
+//@ assigns Failed
+//@ ensures [returns-component] implies(result1 == nil && component != nil, result0 != nil)
 //@ ensures [failure-recorded] Failed == (old(Failed) || result1 != nil)
